@@ -1,13 +1,13 @@
-"""C04: Inner products, expectation values and environment blocks match dense results"""
+"""C19: Operands are never modified and results share no state with them"""
 from .common import deductive_all
 
 LEVEL = 'other'
 EXPLANATION = ('Mixed level. Contract obligations generated from the real AST of the functions this property depends on are '
                'discharged deductively for all inputs in exact arithmetic (engines Z/T/F/L, see obligation_list); every clause of the '
                'property that those obligations do not reach, and all floating-point behaviour, is decided by the bounded run-time '
-               'stand-in (engine R), which is labelled bounded and never counted as proved. See DESIGN.md section 5, C04.')
+               'stand-in (engine R), which is labelled bounded and never counted as proved. See DESIGN.md section 5, C19.')
 ASSUMPTIONS = []
 NOT_PROVED = []
 
 def deductive(tier):
-    return deductive_all('C04', tier)
+    return deductive_all('C19', tier)
